@@ -164,7 +164,7 @@ CHECKS = {
                    "Start/Stop/RegisterGauge sequences (sequential and concurrent) with a census of live poller goroutines (1 iff started, never 2, 0 "
                    "after Stop returns), frozen supplier counts while stopped, and a watchdog that classifies a hang as the Stop-vs-tick wait-for cycle "
                    "from the goroutine dump. Exploration.",
-        require=["windows_handed_to_an_instrumented_delegate", "limiter_path_windows_after_abandoned_requests", "limit_gauges_compared_after_an_external_set", "lookup_table_changes_with_tokens_outstanding", "samples_after_a_stop_checked_via_udp", "simultaneous_start_rounds", "gauges_registered_after_start", "limiter_path_windows", "concurrent_limiter_inflight_samples", "queue_gauge_dynamic_cases", "strategy_decisions", "partition_decisions", "limit_samples", "limit_drop_samples", "gauge_reads", "forwarded_samples_checked",
+        require=["queue_gauge_cases", "queue_gauge_dynamic_cases", "windows_handed_to_an_instrumented_delegate", "limiter_path_windows_after_abandoned_requests", "limit_gauges_compared_after_an_external_set", "lookup_table_changes_with_tokens_outstanding", "samples_after_a_stop_checked_via_udp", "simultaneous_start_rounds", "gauges_registered_after_start", "limiter_path_windows", "concurrent_limiter_inflight_samples", "queue_gauge_dynamic_cases", "strategy_decisions", "partition_decisions", "limit_samples", "limit_drop_samples", "gauge_reads", "forwarded_samples_checked",
                  "polled_gauge_checks", "forwarded_samples_checked_via_udp", "lifecycle_states_checked", "frozen_poll_count_checks", "live_poll_observations", "lifecycle_cases/gometrics",
                  "lifecycle_cases/datadog", "concurrent_lifecycle_cases", "concurrent_strategy_sample_rounds"],
         rule="case kinds: strategy op sequence (30-80 ops), partitioned strategy op sequence, limit sample sequence (30-90 samples, every limit kind incl. "
@@ -263,7 +263,7 @@ CHECKS = {
     "C19": dict(
         pkg="c19", race=False, shards=(6, 16), timeout_s=(600, 3000),
         technique="holder-bracket monitor + every-caller-granted-within-timeout monitor on a synctest virtual clock; real-time stress with stuck-state classification",
-        level_text="In half of the generic-pool stress runs two goroutines keep describing the pool's limiter (String); a stress run that stops progressing with goroutines waiting for a library mutex is reported as a deadlock. Generic random pools over a delegate whose listener is slow to give the unit back (point slow-inner-release; one release-at-point case in four is forced onto the instrumented-delegate points). Generic random pools are also hit right after the caller's first / second refused delegate attempt (instrumented delegate); after every stress run the pool must hand out its full limit again. One configuration in five has a backlog of 11-24 (larger than the smallest sample window). Two-releases / two-parked cases over the simple strategy: the second holder completes while the first hand-off is inside the strategy (verif point) - both parked callers are served. FixedPool and Pool x {random, FIFO, LIFO}, limit 1-4, callers = limit+1..limit+backlog with PRNG arrival instants (also all "
+        level_text="Cancelled-at-the-grant cases: generic pools over an instrumented delegate; the parked caller's context is cancelled at the very moment the delegate grants the unit for it - afterwards the pool hands out its full limit. In half of the generic-pool stress runs two goroutines keep describing the pool's limiter (String); a stress run that stops progressing with goroutines waiting for a library mutex is reported as a deadlock. Generic random pools over a delegate whose listener is slow to give the unit back (point slow-inner-release; one release-at-point case in four is forced onto the instrumented-delegate points). Generic random pools are also hit right after the caller's first / second refused delegate attempt (instrumented delegate); after every stress run the pool must hand out its full limit again. One configuration in five has a backlog of 11-24 (larger than the smallest sample window). Two-releases / two-parked cases over the simple strategy: the second holder completes while the first hand-off is inside the strategy (verif point) - both parked callers are served. FixedPool and Pool x {random, FIFO, LIFO}, limit 1-4, callers = limit+1..limit+backlog with PRNG arrival instants (also all "
                    "simultaneous) and hold times (also zero), a quarter of the callers cancelling their context while possibly queued, time-out above the "
                    "longest possible wait (random pools: poll period 0 / 7 ms / long): a harness bracket counter (a lower bound of the true "
                    "holders) must never exceed the limit, every caller that did not cancel must be granted (queue pools: within the time-out of its arrival, exact "
@@ -272,7 +272,7 @@ CHECKS = {
                    "all units held again, one more caller must queue and be served by the next release. "
                    "A real-time stress tier (zero hold, 300 iterations per caller, time-out 1h) must finish without refusals; a run that stops progressing "
                    "with capacity free is classified as stuck (violation), anything else as inconclusive. Exploration.",
-        require=["stress_full_limit_probes", "release_at_point_cases/slow-inner-release", "two_releases_two_parked_cases", "release_at_point_cases/queue.before_push", "release_at_point_cases/blocking.helper_before_lock", "second_phase_probes", "virtual_scenarios_with_more_callers_than_limit_plus_backlog", "virtual_scenarios", "virtual_callers_that_had_to_wait", "virtual_scenarios_reaching_the_limit", "virtual_callers_cancelling_while_queued", "virtual_scenarios_with_colliding_timeouts", "stress_runs", "stress_grants"],
+        require=["stress_full_limit_probes", "cancelled_at_the_grant_cases", "release_at_point_cases/slow-inner-release", "two_releases_two_parked_cases", "release_at_point_cases/queue.before_push", "release_at_point_cases/blocking.helper_before_lock", "second_phase_probes", "virtual_scenarios_with_more_callers_than_limit_plus_backlog", "virtual_scenarios", "virtual_callers_that_had_to_wait", "virtual_scenarios_reaching_the_limit", "virtual_callers_cancelling_while_queued", "virtual_scenarios_with_colliding_timeouts", "stress_runs", "stress_grants"],
         rule="virtual scenario = (pool kind, ordering, limit, backlog, callers, per-caller arrival/hold/outcome); stress = (same config, real time); "
              "non-trivial = at least one caller had to wait; distinct = distinct (config, first caller).",
         assumptions=COMMON_ASSUME + ["the bracket counter is incremented after Acquire returned and decremented before completion, so it never over-counts holders"],
